@@ -23,7 +23,7 @@ RULE = ("(a) exhaustive pivot-order enumeration: for each permutation pi of m ro
 ASSUMPTIONS = ["backward-error bound c*max(m,n)*eps*||L||_F*||U||_F with c = 100 (growth is bounded because |multipliers| <= 1)",
                "an exception on a nonsingular but uniformly tiny matrix (absolute pivot threshold 1e-15) is not judged"]
 SHARDS = {"quick": 8, "thorough": 16}
-DECIDING = ["P_is_permutation", "L_unit_lower", "multipliers_le_1", "U_upper", "PA_eq_LU", "A_eq_LU_two_output",
+DECIDING = ["P_is_permutation", "L_unit_lower", "multipliers_le_1", "U_upper", "PA_eq_LU", "PA_eq_LU_componentwise", "A_eq_LU_two_output",
             "two_output_L_is_row_permuted", "singular_loud_or_exact"]
 MUST_REACH = ["history:inplace_update_then_call", "history:views_of_previous_argument", "perm:noninvolutive", "perm:identity", "singular:evaluated", "singular:exact_step:tall:last",
               "singular:exact_step:square:last", "singular:exact_step:wide:last", "singular:exact_step:tall:first"]
@@ -218,6 +218,12 @@ def judge(ctx, R, A, site, tags=(), expect_pi=None, unique=False, direct=False):
     LU = refq.matmul(L, U)
     bound = C * max(m, n) * refq.EPS * (refq.fro(L) * refq.fro(U)) + 1e-300
     ctx.check("PA_eq_LU", refq.fro(refq.matmul(P, A) - LU), bound, site=site, tags=tags, detail={"shape": [m, n], "perm": perm})
+    # componentwise backward error of Gaussian elimination: |P A - L U| <= c n eps |L| |U| entry by entry (small-but-legitimate entries next to
+    # large ones are protected by this clause; a normwise bound is blind to them)
+    comp_b = C * max(m, n) * refq.EPS * (refq.absq(L) @ refq.absq(U)) + 1e-300
+    comp_r = refq.absq(refq.matmul(P, A) - LU) / comp_b
+    ctx.check("PA_eq_LU_componentwise", float(comp_r.max()) if comp_r.size else 0.0, 1.0, site=site, tags=tags,
+              detail={"shape": [m, n], "perm": perm, "worst_entry": [int(v) for v in np.unravel_index(int(np.argmax(comp_r)), comp_r.shape)] if comp_r.size else None})
     # two-output mode
     ok2 = L2.shape == (m, N) and U2.shape == (N, n)
     if ok2:
@@ -237,8 +243,16 @@ def judge(ctx, R, A, site, tags=(), expect_pi=None, unique=False, direct=False):
 def _perm(spec, ctx, R):
     m, n, pi = spec["m"], spec["n"], spec["pi"]
     rng = gen.rng_for(spec["seed"], "c07perm", m, n, tuple(pi))
-    for variant in ("generic", "int_U", "axis_L_dyadic"):
+    for variant in ("generic", "int_U", "axis_L_dyadic", "graded_U"):
         L, U = _make_LU(rng, m, n)
+        if variant == "graded_U":
+            # entries of U (off the diagonal) spread over twelve orders of magnitude: small-but-legitimate data (1e-9 next to 1) that any
+            # relative "round-off cleanup" of the trailing block would destroy; the forced pivot order does not depend on them
+            Uc = refq.fa(U).copy()
+            ex = rng.choice([0.0, -3.0, -6.0, -9.0, -12.0], size=Uc.shape[:2])
+            for i in range(min(m, n)):
+                ex[i, i] = 0.0
+            U = refq.qa(Uc * (10.0 ** ex)[..., None])
         if variant == "axis_L_dyadic":
             # multipliers confined to ONE quaternion axis (real, i, j or k; exact dyadic values) and a real dyadic diagonal of U:
             # all products are exact in floating point, so the computed multipliers have exactly-zero components on the other axes
